@@ -130,7 +130,8 @@ CONC_TARGETS = ["<start>", "ITRF", "TOD", "QSW", "TNW", "EME2000", "MOD", "TEME"
 def _grid_seq(tier, rng):
     """start frame in the non-rotating frames x all sequences of length 1..2 (quick: 3 start frames; thorough: all 7
     and length 3, plus 300 seeded sequences of length 4-5) over the 10 built-in frames + QSW/TNW, 1 seeded PSD matrix;
-    initial covariance frame in {state frame, ITRF, QSW}"""
+    initial covariance frame in {state frame, ITRF, QSW}; in a third of the cases each, the covariance is replaced on the way by a copy of itself / by the covariance
+    of a copy of its state"""
     nt = len(CONC_TARGETS)
     maxlen = 2 if tier == "quick" else 3
     starts = range(len(INERTIAL)) if tier != "quick" else (0, 3, 4)
@@ -139,12 +140,13 @@ def _grid_seq(tier, rng):
             for n in range(1, maxlen + 1):
                 if f0 and n > 2:
                     continue
-                for seq in itertools.product(range(1, nt), repeat=n):
-                    yield {"start": si, "len": n - 1, "f0": f0, **{f"t{i}": seq[i] for i in range(n)}, "seed": 1}
+                for j, seq in enumerate(itertools.product(range(1, nt), repeat=n)):
+                    # (copy: after one of the steps the covariance is replaced by a copy of itself, or by the covariance of a copy of its state: 0 = never)
+                    yield {"start": si, "len": n - 1, "f0": f0, **{f"t{i}": seq[i] for i in range(n)}, "seed": 1, "copy": (j + si + f0) % 3, "copy_at": (j // 3) % n}
     if tier != "quick":
         for k in range(300):
             n = rng.choice([4, 5])
-            yield {"start": rng.randrange(len(INERTIAL)), "len": n - 1, "f0": 0, **{f"t{i}": rng.randrange(nt) for i in range(n)}, "seed": k}
+            yield {"start": rng.randrange(len(INERTIAL)), "len": n - 1, "f0": 0, **{f"t{i}": rng.randrange(nt) for i in range(n)}, "seed": k, "copy": rng.randrange(3), "copy_at": rng.randrange(n)}
 
 
 @contract("C14", "setter", funcs=[f"{COV}:Cov.frame.fset", f"{COV}:Cov.frame.fget"], grid=_grid_seq, rtol=1e-9, atol=1e-12,
@@ -183,8 +185,17 @@ def _(c):
         seq = [c.choice(f"t{i}", targets) for i in range(n)]
         sv, C = _real_setup(start, start, c.integer("seed"))
         cov = Cov(sv, C, f0name if f0name in LOCALS else get_frame(f0name))
-        for t in seq:
+        how, at = c.integer("copy"), c.integer("copy_at")
+        for j, t in enumerate(seq):
             cov.frame = t
+            if how and j == at and j < len(seq) - 1:
+                # a copy made on the way stands for the original from then on
+                if how == 1:
+                    cov = cov.copy()
+                else:
+                    holder = sv.copy()
+                    holder._data["cov"] = cov
+                    cov = holder.copy().cov
         want = _direct(sv, C, f0name, seq[-1])
         got = np.asarray(cov, dtype=float)
         scale = np.sqrt(np.abs(np.outer(np.diag(want), np.diag(want)))) + 1e-30
